@@ -98,3 +98,19 @@ Theorem C18_port_unique : forall bs b1 b2, Sorted.StronglySorted Z.lt (bports bs
   In b1 bs -> In b2 bs -> b_port b1 = b_port b2 -> b1 = b2.
 Proof. exact sorted_port_unique. Qed.
 Print Assumptions C18_port_unique.
+
+(* ... and the binds whose names are referenced elsewhere -- by other backends and, since
+   fixes/C18-auth-proxy-cleanup-frontend.patch, by the host paths of the frontend placement
+   (`used0`) -- survive the processing of any backend or host, so the two theorems above
+   keep holding for the paths configured earlier *)
+Theorem C18_referenced_binds_survive : forall lua fe used0 px ds px' cfgs b, sorted_px px ->
+  process_backend lua fe used0 px ds = (px', cfgs) ->
+  In b (px_binds px) -> In (b_port b) used0 -> In b (px_binds px').
+Proof. exact backend_keeps_referenced. Qed.
+Print Assumptions C18_referenced_binds_survive.
+
+Theorem C18_referenced_binds_survive_host : forall lua used0 px hplace hurl keys px' hcfgs b, sorted_px px ->
+  process_host lua used0 px hplace hurl keys = (px', hcfgs) ->
+  In b (px_binds px) -> In (b_port b) used0 -> In b (px_binds px').
+Proof. exact host_keeps_referenced. Qed.
+Print Assumptions C18_referenced_binds_survive_host.
